@@ -658,7 +658,8 @@ func checkC02(r *Run) {
 	r.Rule("R3", "literal text is not transformed after the lexer: token literal -> HTMLLiteral.Value -> template.HTML(Value) -> verbatim arm of the sink; the comment parser yields an empty literal", 3)
 	r.Rule("R4", "literal-text scanner: in every iteration, each byte the loop steps over has first been tested for being a tag start ('<' followed by '%'); no path (in particular not the one through the escape handling) reaches the trailing readChar without that test", 1)
 	topLevelWriteRule(r, "R1")
-	silentStatementsRule(r, "R2")
+	coreTopLevelRules(r, "R2", "")
+	coreStatementRule(r, "R2")
 	literalTextRule(r, "R3")
 	textScannerRuleSSA(r, "R4")
 	r.Rule("R5", "literal text stays byte-identical: on the literal-text path of the lexer no single byte is converted to a string (string(b) re-encodes bytes >= 0x80)", 1)
